@@ -64,12 +64,12 @@ class FakeConn:
 class Real:
     """one real Daemon for a whole run; shapes are registered / unregistered one at a time"""
 
-    def __init__(self):
+    def __init__(self, with_daemon=True):
         common.repo_on_path()
         from Pyro5 import server, protocol, serializers, errors, config
         self.server, self.protocol, self.errors = server, protocol, errors
         self.ser = serializers.serializers["serpent"]
-        self.daemon = server.Daemon(host="127.0.0.1", port=0)
+        self.daemon = server.Daemon(host="127.0.0.1", port=0) if with_daemon else None   # (the extractor only materialises classes)
         self.log = []
         self.seq = 0
         self.cls = None
@@ -83,7 +83,8 @@ class Real:
 
     def close(self):
         threading.excepthook = self._excepthook
-        self.daemon.close()
+        if self.daemon is not None:
+            self.daemon.close()
 
     # ---------------------------------------------------------------- materialise
     def _fn(self, fd, kind):
